@@ -15,7 +15,7 @@ STR = "crates/steel-core/src/primitives/strings.rs"
 FNS = [(HM, "hash_remove"), (HM, "hash_insert"), (HM, "clear"), (HM, "hm_union"),
        (HS, "hs_insert"), (HS, "hashset_clear"),
        (VEC, "immutable_vector_rest"), (VEC, "immutable_vector_push"), (VEC, "immutable_vector_push_front"),
-       (VEC, "immutable_vector_set"),
+       (VEC, "immutable_vector_set"), (VEC, "immutable_vector_take"), (VEC, "immutable_vector_drop"),
        (STR, "string_push"), (STR, "string_to_uninterned_symbol")]
 
 
@@ -58,7 +58,7 @@ OBS = {n: dict(kind="bounded", bound=B, functions=[f], contract=f + ": " + C) fo
     ("hash_insert_persistent", "hash_insert"), ("hash_insert_unique_persistent", "hash_insert"),  ("hash_remove_persistent", "hash_remove"), ("hash_clear_persistent", "clear"),
     ("hash_union_both_shared", "hm_union"), ("hash_union_left_shared", "hm_union"), ("hash_union_right_shared", "hm_union"), ("hash_union_unique", "hm_union"), ("hashset_insert_persistent", "hs_insert"), ("hashset_clear_persistent", "hashset_clear"),
     ("vector_push_persistent", "immutable_vector_push"), ("vector_push_front_persistent", "immutable_vector_push_front"),
-    ("vector_rest_persistent", "immutable_vector_rest"), ("vector_set_persistent", "immutable_vector_set"),
+    ("vector_rest_persistent", "immutable_vector_rest"), ("vector_set_persistent", "immutable_vector_set"), ("vector_take_persistent", "immutable_vector_take"), ("vector_drop_persistent", "immutable_vector_drop"),
     ("string_push_persistent", "string_push"),
     ("uninterned_symbol_persistent", "string_to_uninterned_symbol")]}
 
